@@ -594,6 +594,16 @@ impl World {
     /// `established`: the connection that was Established before the other one's OPEN went out.
     async fn judge_collision(&mut self, x: usize, y: usize, established: Option<usize>) -> Option<usize> {
         self.settle().await;
+        if self.conns[x].up() && self.conns[y].up() && self.conns[x].keepalive_after_open && self.conns[y].keepalive_after_open {
+            // "both still up" is the one judgement that rests on something NOT happening:
+            // give it two more seconds of wall-clock on top of the state-based quiescence
+            // (the kernel may deliver loopback data late on a loaded machine)
+            let t = Instant::now();
+            while t.elapsed() < Duration::from_secs(2) && self.conns[x].up() && self.conns[y].up() {
+                self.round().await;
+            }
+            self.settle().await;
+        }
         let ux = self.conns[x].up();
         let uy = self.conns[y].up();
         let view = self.daemon_view();
